@@ -351,3 +351,106 @@ kproof! {
         kani::cover!(an == 5 && k == 2, "five-byte varint, two chunks");
     }
 }
+
+stubbed_container! {
+    /// thorough: larger literal containers
+    fn k01c_literal_chunks_rt_more() {
+        literal_chunks_rt::<6, 3>();
+        literal_chunks_rt::<6, 6>();
+        literal_chunks_rt::<2, 0>();
+    }
+}
+stubbed_container! {
+    /// thorough: more fragmentation patterns, 5-byte file in two chunks
+    fn k13a_fragmented_io_more() {
+        fragmented_io::<5, 2, 1, 2>();
+        fragmented_io::<5, 2, 2, 1>();
+        fragmented_io::<5, 2, 3, { usize::MAX }>();
+        fragmented_io::<5, 5, 1, 1>();
+    }
+}
+stubbed_container! {
+    /// thorough: faults in a 5-byte / two-chunk container (10 bytes): source offsets 5, 9, 10; destination 4
+    fn k13b_io_faults_more() {
+        io_faults::<5, 2, 1, 1, 5, 99>();
+        io_faults::<5, 2, 2, 2, 9, 99>();
+        io_faults::<5, 2, 1, 1, 10, 99>();
+        io_faults::<5, 2, { usize::MAX }, 1, 99, 4>();
+    }
+}
+
+// ---------------------------------------------------------------------------
+// chunk framing for deflate / PNG chunks (C01): writer/reader symmetry of tag, varint lengths and payload
+// slices, with the reconstruction itself replaced by a recording stand-in
+// ---------------------------------------------------------------------------
+/// stand-in for recompress_deflate_stream: returns its two arguments, length-prefixed, so that the harness
+/// can see exactly which slices the container reader handed to the reconstruction
+pub fn stub_recompress_echo(plain: &[u8], corr: &[u8]) -> Result<Vec<u8>, PreflateError> {
+    let mut v: Vec<u8> = Vec::with_capacity(16);
+    v.push(plain.len() as u8);
+    v.push(corr.len() as u8);
+    v.extend_from_slice(plain);
+    v.extend_from_slice(corr);
+    Ok(v)
+}
+fn dummy_result(plain: &[u8], corr: &[u8], cs: usize) -> DecompressResult {
+    DecompressResult {
+        plain_text: plain.to_vec(),
+        prediction_corrections: corr.to_vec(),
+        compressed_size: cs,
+        parameters: PreflateParameters { huff_strategy: crate::preflate_parameter_estimator::PreflateHuffStrategy::Dynamic,
+            predictor: nodict_predictor_params(crate::preflate_parameter_estimator::PreflateStrategy::Store) },
+    }
+}
+kproof! {
+    /// K01f: a DeflateStream chunk written by write_chunk_block is read back by read_chunk_block such that the
+    /// reconstruction receives exactly the plaintext and the corrections that were stored; write_chunk_block
+    /// reports the compressed size as the number of file bytes covered
+    #[kani::stub(crate::preflate_container::recompress_deflate_stream, stub_recompress_echo)]
+    #[kani::stub(crate::idat_parse::IdatContents::read_from_bytestream, stub_idat_read_err)]
+    fn k01f_deflate_chunk_framing() {
+        let plain: [u8; 2] = kani::any();
+        let corr: [u8; 3] = kani::any();
+        let cs: usize = kani::any();
+        kani::assume(cs >= 1 && cs < 1000);
+        let mut c: Vec<u8> = Vec::with_capacity(24);
+        let covered = write_chunk_block(BlockChunk::DeflateStream(dummy_result(&plain, &corr, cs)), &[], &mut c).unwrap();
+        assert!(covered == cs, "chunk writer reports a wrong number of covered file bytes");
+        let mut src = &c[..];
+        let mut out: Vec<u8> = Vec::with_capacity(16);
+        let more = read_chunk_block(&mut src, &mut out).unwrap();
+        assert!(more && src.is_empty());
+        assert!(out.len() == 7 && out[0] == 2 && out[1] == 3);
+        assert!(out[2] == plain[0] && out[3] == plain[1] && out[4] == corr[0] && out[5] == corr[1] && out[6] == corr[2], "reconstruction received different slices than were stored");
+        kani::cover!(true, "reached");
+        core::mem::forget(out); core::mem::forget(c);
+    }
+}
+kproof! {
+    /// K01g: the same for a PNG chunk: IDAT descriptor, plaintext and corrections survive the framing and the real
+    /// recreate_idat re-chunks what the reconstruction returned
+    #[kani::stub(crate::preflate_container::recompress_deflate_stream, stub_recompress_echo)]
+    #[kani::stub(crc32fast::Hasher::update, crc32fast::Hasher::update_cheap)]
+    fn k01g_idat_chunk_framing() {
+        let plain: [u8; 1] = kani::any();
+        let corr: [u8; 2] = kani::any();
+        // echo returns 2 + 1 + 2 = 5 bytes; zlib header 2 + Adler 4 -> 11 payload bytes in chunks of 7 + 4
+        let idat = IdatContents { chunk_sizes: vec![7, 4], zlib_header: kani::any(), total_chunk_length: 7 + 4 + 24, addler32: kani::any() };
+        let hdr = idat.zlib_header; let ad = idat.addler32;
+        let mut c: Vec<u8> = Vec::with_capacity(32);
+        let covered = write_chunk_block(BlockChunk::IDATDeflate(idat, dummy_result(&plain, &corr, 5)), &[], &mut c).unwrap();
+        assert!(covered == 7 + 4 + 24, "PNG chunk writer must cover total_chunk_length file bytes");
+        let mut src = &c[..];
+        let mut out: Vec<u8> = Vec::with_capacity(48);
+        let more = read_chunk_block(&mut src, &mut out).unwrap();
+        assert!(more && src.is_empty());
+        assert!(out.len() == 35);
+        // first chunk: length 7, "IDAT", zlib header, then the echoed bytes
+        assert!(out[0..4] == [0, 0, 0, 7] && &out[4..8] == b"IDAT" && out[8] == hdr[0] && out[9] == hdr[1]);
+        assert!(out[10] == 1 && out[11] == 2 && out[12] == plain[0] && out[13] == corr[0] && out[14] == corr[1], "reconstruction received different slices than were stored");
+        // second chunk: length 4, "IDAT", the Adler-32
+        assert!(out[19..23] == [0, 0, 0, 4] && &out[23..27] == b"IDAT" && out[27..31] == ad.to_be_bytes());
+        kani::cover!(true, "reached");
+        core::mem::forget(out); core::mem::forget(c);
+    }
+}
